@@ -1076,6 +1076,13 @@ fn gap_doors(r: &mut Rng, k_index: usize) -> Case {
     // small DISTINCT bonuses
     let mut bonus: Vec<i64> = vec![];
     while bonus.len() < n { let b = r.range(1, 40); if !bonus.contains(&b) { bonus.push(b); } }
+    // the member of a conflict triangle that the optimum needs is the FIRST one: microlp's depth-first search takes the
+    // branch that excludes the first fractional variable first, so its first incumbent uses another member of the triangle -
+    // non-optimal, but within 1e-4 of the bound when the base value dwarfs the bonuses
+    if r.chance(5, 6) {
+        let m = *[bonus[0], bonus[2], bonus[4]].iter().max().unwrap(); let at = bonus.iter().position(|b| *b == m).unwrap(); bonus.swap(0, at);
+        if family == 3 { let m = *[bonus[1], bonus[3], bonus[5]].iter().max().unwrap(); let at = bonus.iter().position(|b| *b == m).unwrap(); bonus.swap(1, at); }
+    }
     let values: Vec<f64> = bonus.iter().map(|b| base + *b as f64).collect();
     let k = match family { 0 => 3, _ => 2 + r.below(n - 3) };
     let mut conflicts: Vec<(usize, usize)> = vec![(0, 2), (0, 4), (2, 4)];
